@@ -832,6 +832,19 @@ func checkHierarchical(p *core.Prog, r *core.Report, ds *core.Describer, f *ssa.
 		r.Violate("C19.4", base+"|path-parameter", p.Pos(f.Pos()), "no string parameter of the getter is shortened for the fallback lookup")
 		return
 	}
+	// the key-resolver form: the function returns the KEY of the most specific level that is present — presence being
+	// asked of a callback — and its callers read the value at that key
+	var presentParam *ssa.Parameter
+	if rb, ok := f.Signature.Results().At(0).Type().Underlying().(*types.Basic); ok && rb.Kind() == types.String {
+		for _, prm := range f.Params {
+			if sg, ok := prm.Type().Underlying().(*types.Signature); ok && sg.Params().Len() == 1 && sg.Results().Len() == 1 {
+				if b, ok := sg.Results().At(0).Type().Underlying().(*types.Basic); ok && b.Kind() == types.Bool {
+					presentParam = prm
+				}
+			}
+		}
+	}
+	keyForm := presentParam != nil
 	emptyG := func(c core.Cond) int {
 		if c.Op != "==" && c.Op != "!=" {
 			return -1
@@ -939,6 +952,18 @@ func checkHierarchical(p *core.Prog, r *core.Report, ds *core.Describer, f *ssa.
 	// presence test on the same key
 	var testGetter string
 	presence := func(c core.Cond) int {
+		if keyForm {
+			if c.Op == "" && c.B != nil {
+				if call, ok := c.B.Val.(*ssa.Call); ok && call.Call.Value == ssa.Value(presentParam) && len(call.Call.Args) == 1 && call.Call.Args[0] == keyV {
+					testGetter = "callback"
+					if c.BoolOnEdge(0) {
+						return 0
+					}
+					return 1
+				}
+			}
+			return -1
+		}
 		if c.Op == "" {
 			// boolean getter used directly as the test
 			if c.B != nil {
@@ -1012,6 +1037,9 @@ func checkHierarchical(p *core.Prog, r *core.Report, ds *core.Describer, f *ssa.
 			}
 			return true
 		})
+		if keyForm {
+			keys = []*core.VD{d} // what is returned is the key itself
+		}
 		if len(keys) == 0 {
 			r.Violate("C19.5", construct, p.Pos(ret.Pos()), "a return that is neither the base value, a found value nor the fallback lookup: "+d.String())
 			continue
@@ -1068,6 +1096,60 @@ func checkHierarchical(p *core.Prog, r *core.Report, ds *core.Describer, f *ssa.
 			}
 		}
 		r.Check(ok, "C19.2", base+"|suffix-equals-base", p.Pos(keyV.Pos()), fmt.Sprintf("per-level key suffix %q is the base key", suffix), fmt.Sprintf("per-level key suffix %q differs from the top-level key(s) %v", suffix, baseKeys))
+	}
+	if keyForm {
+		// the callers: presence is asked of viper for the key handed to the callback, and the value is read at the key
+		// that comes back
+		nCallers := 0
+		if n := p.CallGraph().Nodes[f]; n != nil {
+			for _, e := range n.In {
+				if e.Caller.Func == f || e.Site == nil {
+					continue
+				}
+				call, ok := e.Site.(*ssa.Call)
+				if !ok {
+					continue
+				}
+				nCallers++
+				cbase := fmt.Sprintf("%s|caller %s", base, core.FnKey(e.Caller.Func))
+				readsAtKey := call.Referrers() != nil && len(*call.Referrers()) > 0
+				if call.Referrers() != nil {
+					for _, ref := range *call.Referrers() {
+						if _, isDbg := ref.(*ssa.DebugRef); isDbg {
+							continue
+						}
+						g, isCall := ref.(*ssa.Call)
+						if !isCall || !strings.Contains(core.CalleeName(&g.Call), "spf13/viper.Get") || len(g.Call.Args) != 1 || g.Call.Args[0] != ssa.Value(call) {
+							readsAtKey = false
+						}
+					}
+				}
+				r.Check(readsAtKey, "C19.3", cbase+"|value-read-at-resolved-key", p.Pos(call.Pos()), "the value is read at the key the resolver returned", "the key returned by the resolver is not (only) handed to a viper getter")
+				var cb *ssa.Function
+				for i, prm := range f.Params {
+					if prm == presentParam && i < len(call.Call.Args) {
+						switch x := call.Call.Args[i].(type) {
+						case *ssa.MakeClosure:
+							cb, _ = x.Fn.(*ssa.Function)
+						case *ssa.Function:
+							cb = x
+						}
+					}
+				}
+				okCb := false
+				if cb != nil && len(cb.Params) == 1 {
+					for _, ret := range core.ReturnsOf(cb) {
+						if len(ret.Results) == 1 {
+							okCb = ds.D(ret.Results[0]).Any(func(x *core.VD) bool {
+								return x.Kind == "call" && strings.Contains(x.Name, "spf13/viper.") && len(x.Args) == 1 && x.Args[0].Kind == "param" && x.Args[0].Name == cb.Params[0].Name()
+							})
+						}
+					}
+				}
+				r.Check(okCb, "C19.3", cbase+"|presence-callback", p.Pos(call.Pos()), "presence is asked of viper for the key handed to the callback", "the presence callback does not test the key it is handed")
+			}
+		}
+		r.Check(nCallers >= 1, "C19.3", base+"|has-callers", p.Pos(f.Pos()), "the key resolver is used", "the key resolver has no caller")
 	}
 	r.Check(nBase >= 1, "C19.1", base+"|has-base-return", p.Pos(f.Pos()), "has a top-level return", "no return for path == \"\"")
 	r.Check(nHit >= 1, "C19.3", base+"|has-hit-return", p.Pos(f.Pos()), "has a found-value return", "no return of the value found at <path>.<name>")
